@@ -315,3 +315,118 @@ Example lx2_reports : forall mall : bool,
   exec (lx_env 0 (7 + 4194304) 2) (enc lx_ke lx_ms2) (mkSt (rev bs) []) = Fail /\
   exec (lx_env 0 (7 + 2147483648) 2) (enc lx_ke lx_ms2) (mkSt (rev bs) []) = Fail.
 Proof. intros [|]; vm_compute; repeat split; reflexivity. Qed.
+
+(* ================= plan vocabulary (Properties/C17.v) ================= *)
+(* Plan::absolute_timelock / Plan::relative_timelock: the lock fields of the satisfier's result *)
+Definition plan_abs (ke : keyenv) (se : senv) (mall rhs : bool) (m : ms) : option N :=
+  s_abs (snd (sat_dissat ke se mall rhs m)).
+Definition plan_rel (ke : keyenv) (se : senv) (mall rhs : bool) (m : ms) : option N :=
+  s_rel (snd (sat_dissat ke se mall rhs m)).
+
+Lemma plan_template_stack ke se mall rhs m tpl :
+  plan_template ke se mall rhs m = Some tpl -> s_stack (snd (sat_dissat ke se mall rhs m)) = WStack tpl.
+Proof. unfold plan_template. destruct (s_stack _); intros H; inversion H; reflexivity. Qed.
+
+Section PlanLocks.
+  Variable e : env.
+  Variable ke : keyenv.
+  Variable A : assets.
+  Variable se : senv.
+  Variable f : fill.
+  Hypothesis HL : linked ke A se f.
+  Hypothesis Hks : forall ks, length (ksort ke ks) = length ks.
+  Hypothesis HC : crypto_ok e ke A.
+  Hypothesis Hse : forall kbs, e_sigok e kbs [] = false.
+  Variable mall rhs : bool.
+  Variable m : ms.
+  Variable t : ty.
+  Hypothesis Ht : type_of m = ROk t.
+  Hypothesis Hb : c_base (t_corr t) = BB.
+  Hypothesis Hwf : wf e ke m.
+  Hypothesis Hnm : no_multi m.
+  Variable tpl : list ph.
+  Variable bs : list bytes.
+  Hypothesis Hp : plan_template ke se mall rhs m = Some tpl.
+  Hypothesis Hc : plan_complete f tpl = Some bs.
+
+  Let Hs := plan_template_stack ke se mall rhs m tpl Hp.
+
+  Theorem plan_locks_suffice : lock_met e (plan_abs ke se mall rhs m) (plan_rel ke se mall rhs m) ->
+    accepts e (enc ke m) (rev bs) = true.
+  Proof. exact (reported_locks_suffice e ke A se f HL Hks HC Hse mall rhs m t Ht Hb Hwf Hnm tpl bs Hs Hc). Qed.
+
+  Theorem plan_locks_exact :
+    accepts e (enc ke m) (rev bs) = true <-> lock_met e (plan_abs ke se mall rhs m) (plan_rel ke se mall rhs m).
+  Proof. exact (reported_locks_exact e ke A se f HL Hks HC Hse mall rhs m t Ht Hb Hwf Hnm tpl bs Hs Hc). Qed.
+
+  Theorem plan_abs_lock_necessary T : plan_abs ke se mall rhs m = Some T -> check_locktime e (Z.of_N T) = false ->
+    forall below al, exec e (enc ke m) (mkSt (rev bs ++ below) al) = Fail.
+  Proof. exact (reported_abs_lock_necessary e ke A se f HL Hks HC Hse mall rhs m t Ht Hb Hwf Hnm tpl bs Hs Hc T). Qed.
+
+  Theorem plan_rel_lock_necessary R : plan_rel ke se mall rhs m = Some R -> check_sequence e (Z.of_N R) = false ->
+    forall below al, exec e (enc ke m) (mkSt (rev bs ++ below) al) = Fail.
+  Proof. exact (reported_rel_lock_necessary e ke A se f HL Hks HC Hse mall rhs m t Ht Hb Hwf Hnm tpl bs Hs Hc R). Qed.
+
+  Theorem plan_no_abs_no_cltv below al : lock_met e (plan_abs ke se mall rhs m) (plan_rel ke se mall rhs m) ->
+    plan_abs ke se mall rhs m = None -> abs_evs (tr_script e (enc ke m) (mkSt (rev bs ++ below) al)) = [].
+  Proof. exact (unreported_abs_not_executed e ke A se f HL Hks HC Hse mall rhs m t Ht Hb Hwf Hnm tpl bs Hs Hc below al). Qed.
+
+  Theorem plan_no_rel_no_csv below al : lock_met e (plan_abs ke se mall rhs m) (plan_rel ke se mall rhs m) ->
+    plan_rel ke se mall rhs m = None -> rel_evs (tr_script e (enc ke m) (mkSt (rev bs ++ below) al)) = [].
+  Proof. exact (unreported_rel_not_executed e ke A se f HL Hks HC Hse mall rhs m t Ht Hb Hwf Hnm tpl bs Hs Hc below al). Qed.
+
+  Theorem plan_executed_locks below al : lock_met e (plan_abs ke se mall rhs m) (plan_rel ke se mall rhs m) ->
+    tr_ok (snd (sat_dissat ke se mall rhs m)) (tr_script e (enc ke m) (mkSt (rev bs ++ below) al)).
+  Proof. exact (executed_locks e ke A se f HL Hks HC Hse mall rhs m t Ht Hb Hwf Hnm tpl bs Hs Hc below al). Qed.
+
+  Theorem plan_locks_on_path : exists cs,
+    accepts_tr (ref_env e (plan_abs ke se mall rhs m) (plan_rel ke se mall rhs m)) (enc ke m) (rev bs) = Some cs /\
+    (forall T, plan_abs ke se mall rhs m = Some T -> In (KAbs T) cs) /\
+    (forall R, plan_rel ke se mall rhs m = Some R -> In (KRel R) cs) /\
+    (plan_abs ke se mall rhs m = None -> forall n, ~ In (KAbs n) cs) /\
+    (plan_rel ke se mall rhs m = None -> forall n, ~ In (KRel n) cs).
+  Proof. exact (reported_locks_on_path e ke A se f HL Hks HC Hse mall rhs m t Ht Hb Hwf Hnm tpl bs Hs Hc). Qed.
+
+  Theorem plan_no_lock_any_tx : plan_abs ke se mall rhs m = None -> plan_rel ke se mall rhs m = None ->
+    forall lt sq ver, accepts (with_locks e lt sq ver) (enc ke m) (rev bs) = true.
+  Proof. exact (no_lock_any_tx e ke A se f HL Hks HC Hse mall rhs m t Ht Hb Hwf Hnm tpl bs Hs Hc). Qed.
+
+  Theorem plan_no_abs_any_locktime : plan_abs ke se mall rhs m = None -> lock_met e None (plan_rel ke se mall rhs m) ->
+    forall lt, accepts (with_locks e lt (e_sequence e) (e_txversion e)) (enc ke m) (rev bs) = true.
+  Proof. exact (no_abs_any_locktime e ke A se f HL Hks HC Hse mall rhs m t Ht Hb Hwf Hnm tpl bs Hs Hc). Qed.
+
+  Theorem plan_no_rel_any_sequence : plan_rel ke se mall rhs m = None -> lock_met e (plan_abs ke se mall rhs m) None ->
+    forall sq ver, (plan_abs ke se mall rhs m = None \/ sq <> SEQ_FINAL) ->
+    accepts (with_locks e (e_locktime e) sq ver) (enc ke m) (rev bs) = true.
+  Proof. exact (no_rel_any_sequence e ke A se f HL Hks HC Hse mall rhs m t Ht Hb Hwf Hnm tpl bs Hs Hc). Qed.
+End PlanLocks.
+
+(* what "CLTV / CSV with operand n fails" means, spelled out (Script/Exec.v) *)
+Lemma check_locktime_false e T : check_locktime e (Z.of_N T) = false <->
+  (N.ltb T LOCKTIME_THRESHOLD <> N.ltb (e_locktime e) LOCKTIME_THRESHOLD) \/ (e_locktime e < T)%N \/ e_sequence e = SEQ_FINAL.
+Proof.
+  rewrite check_locktime_N. split.
+  - intros H. destruct (Bool.eqb _ _) eqn:E1; [|left; intros E; rewrite E, Bool.eqb_reflx in E1; discriminate].
+    destruct (N.leb_spec T (e_locktime e)) as [Hle|Hlt]; [|right; left; exact Hlt].
+    cbn [andb] in H. apply Bool.negb_false_iff, N.eqb_eq in H. right; right; exact H.
+  - intros [H|[H|H]].
+    + destruct (Bool.eqb _ _) eqn:E1; [apply Bool.eqb_prop in E1; contradiction | reflexivity].
+    + replace (N.leb T (e_locktime e)) with false by (symmetry; apply N.leb_gt; exact H). rewrite Bool.andb_false_r. reflexivity.
+    + rewrite H, N.eqb_refl. cbn [negb]. apply Bool.andb_false_r.
+Qed.
+Lemma check_sequence_false e R : (R < 2147483648)%N -> (check_sequence e (Z.of_N R) = false <->
+  (e_txversion e < 2)%N \/ N.land (e_sequence e) SEQ_DISABLE <> 0%N \/
+  N.land R SEQ_TYPE <> N.land (e_sequence e) SEQ_TYPE \/ (N.land (e_sequence e) SEQ_MASK < N.land R SEQ_MASK)%N).
+Proof.
+  intros HR. rewrite check_sequence_N, (land_disable_small R HR), N.eqb_refl. cbn [negb]. split.
+  - intros H. destruct (N.leb_spec 2 (e_txversion e)) as [H1|H1]; [|left; exact H1]. cbn [andb] in H.
+    destruct (N.eqb_spec (N.land (e_sequence e) SEQ_DISABLE) 0) as [H2|H2]; [|right; left; exact H2]. cbn [andb] in H.
+    destruct (N.eqb_spec (N.land R SEQ_TYPE) (N.land (e_sequence e) SEQ_TYPE)) as [H3|H3]; [|right; right; left; exact H3]. cbn [andb] in H.
+    apply N.leb_gt in H. right; right; right; exact H.
+  - intros [H|[H|[H|H]]].
+    + replace (N.leb 2 (e_txversion e)) with false by (symmetry; apply N.leb_gt; exact H). reflexivity.
+    + apply N.eqb_neq in H. rewrite H, Bool.andb_false_r. reflexivity.
+    + apply N.eqb_neq in H. rewrite H, Bool.andb_false_r. reflexivity.
+    + replace (N.leb (N.land R SEQ_MASK) (N.land (e_sequence e) SEQ_MASK)) with false by (symmetry; apply N.leb_gt; exact H).
+      apply Bool.andb_false_r.
+Qed.
